@@ -50,11 +50,13 @@ static inline int nondet_size(void) { return (int)(nondet_unsigned() & MAXN); } 
 /* reachability guard: the read is reached with the ghost element in range and defined (so that the obligation is not vacuous) */
 #define CHK(c, cov, msg)        __CPROVER_cover(cov)
 #define SZ(v, what)             ((v)->n)
+#define SZM(v, f, what)         ((v)->f)
 #define OBLIGATION(c, msg)      /* loop-invariant and call-precondition obligations play no part in the reachability run */
 #else
 #define OBLIGATION(c, msg)      __CPROVER_assert(c, msg)
 #define CHK(c, cov, msg)        __CPROVER_assert(c, msg)
 #define SZ(v, what)             (__CPROVER_assert((v)->sdef, "stale SIZE read (no resize/assignment earlier in this call): " what), (v)->n)
+#define SZM(v, f, what)         (__CPROVER_assert((v)->sdef, "stale SIZE read (no resize/assignment earlier in this call): " what), (v)->f)
 #endif
 
 #define RD_SIZE(v, what)        CHK((v)->sdef, (v)->sdef, "stale SIZE read (no resize/assignment earlier in this call): " what)
